@@ -280,6 +280,16 @@ def check_date_time(acc, pendulum, loc):
                 ok = acceptable(d, comps, False, sign < 0, absolute)
                 if r is not None and ok and r not in ok and days:
                     acc.mismatch("Date.diff_for_humans", f"{loc}/phrase", case, r, sorted(ok))
+                # the reference may be any kind of date: the phrase is the one for the plain Date of that day
+                import datetime as _dt
+                for lbl, other in (("native-date", _dt.date(b.year, b.month, b.day)),
+                                   ("pendulum-DateTime", pendulum.DateTime(b.year, b.month, b.day, 17, 30)),
+                                   ("aware-DateTime", pendulum.datetime(b.year, b.month, b.day, 9, 0, tz="Asia/Tokyo")),
+                                   ("native-datetime", _dt.datetime(b.year, b.month, b.day, 23, 59))):
+                    r2 = basic(acc, "Date.diff_for_humans", f"{loc}/{lbl}", dict(case, other=lbl),
+                               lambda: a.diff_for_humans(other, absolute, locale=loc))
+                    if r2 is not None and r is not None and r2 != r:
+                        acc.mismatch("Date.diff_for_humans", f"{loc}/{lbl}/phrase", dict(case, other=lbl), r2, r)
     for secs in (0, 5, 11, 59, 60, 3599, 3600, 7201, 80000):
         for sign in (1, -1):
             a = pendulum.time(12, 0, 0)
